@@ -103,8 +103,7 @@ func buildPayloadParser() (rel.Expr, error) {
 			set			-> "set of " type;
 			ref			-> (app=([^\s.:]+):"::" ".")? type=[^\s.]+;
 			raw			-> [^\[\n]+\b;
-			PRIMITIVE	-> "int" | "int32" | "int64" | "float" | "float32" | "float64" | "decimal"
-						 | "bool" | "bytes" | "string" | "date" | "datetime" | "any";
+			PRIMITIVE	-> /{(?:int32|int64|int|float32|float64|float|decimal|bool|bytes|string|datetime|date|any)\b};
 			status -> ("ok"|"error"|[1-5][0-9][0-9]);
 			attr -> %!Array(nvp|modifier);
 			nvp_item -> str | array=%!Array(nvp_item) | dict=%!Dict(nvp_item);
